@@ -4,10 +4,17 @@
    classes, total operator table) and Log/LogView.v (FilteringMessageLogger), tied to
    hippolyzer/lib/proxy/message_filter.py and message_logger.py by the correspondence
    check of harness/props/c18.py (printed ASTs compiled by the real compile_filter,
-   evaluated on real entries; logger operation sequences). *)
+   evaluated on real entries; logger operation sequences).
+   Log/FilterSyntax.v models the concrete syntax: the PEG grammar + visitor of
+   message_filter.py as a recursive-descent parser on explicit fuel ([parse], [compile])
+   and the printer of the harness ([print]); the parser is tied to arpeggio by
+   correspondence on printed, mutated and hand-written texts. *)
 From Coq Require Import NArith ZArith List Bool.
 From HV Require Import Log.Filter Log.LogView Log.FilterProofs Log.LogViewProofs.
+From HV Require Import Log.FilterSyntax Log.FilterSyntaxProofs.
+From Coq Require Import Ascii.
 Import ListNotations.
+Local Open Scope char_scope.
 
 (* ---- filters mean what they say ------------------------------------ *)
 
@@ -90,6 +97,76 @@ Theorem C18_ill_formed_raises :
 Proof. exact ill_formed_raises. Qed.
 Print Assumptions C18_ill_formed_raises.
 
+(* ---- the concrete syntax means the tree -------------------------------- *)
+
+(* The grammar reads every printed filter back as the tree that was printed:
+   [parse rs (print f) = Some f] for every well-formed f.  [wf rs f] =
+   [wf_syntax f = true] (every selector part, Meta name and enum part matches the
+   identifier rule [a-zA-Z*][a-zA-Z0-9_*-]*; a Meta reference has at least one name; an
+   enum name does not begin with None / True / False - the grammar matches these
+   keywords as plain prefixes - and is not Meta; an expected literal is None, True,
+   False, a non-negative int, a float that repr writes in positional notation and that
+   reads back as itself, a str or bytes over code points below 256, or a tuple of three
+   or four such ints / floats) and [enums_by rs f] (what an enum reference resolves to
+   is not in the text: the tree carries the resolution the resolver gives). *)
+Theorem C18_parse_print : forall rs f, wf rs f -> parse rs (print f) = Some f.
+Proof. exact parse_print. Qed.
+Print Assumptions C18_parse_print.
+
+(* ... and it is insensitive to layout: every rendering of f - the printed token
+   sequence with arbitrary whitespace (space, tab, newline, return) before, after
+   and between the tokens (around the dots of a selector and of a Meta / enum
+   reference, around the operator, the connectives, the bang and the parentheses), and
+   with any number of redundant parentheses around sub-expressions - parses to f. *)
+Theorem C18_parse_rendering : forall rs f s, wf rs f -> renders f s -> parse rs s = Some f.
+Proof. exact parse_rendering. Qed.
+Print Assumptions C18_parse_rendering.
+
+(* the printed text is one of the renderings *)
+Theorem C18_print_renders : forall f, renders f (print f).
+Proof. exact print_renders. Qed.
+Print Assumptions C18_print_renders.
+
+Theorem C18_parse_print_spaced : forall rs f w1 w2, wf rs f -> ws_only w1 -> ws_only w2 ->
+  parse rs (w1 ++ print f ++ w2) = Some f.
+Proof. exact parse_print_spaced. Qed.
+Print Assumptions C18_parse_print_spaced.
+
+(* compile_filter itself (strip, the empty filter is the star, a lone bang is bang star,
+   then the grammar) reads the printed filter back as well *)
+Theorem C18_compile_print : forall rs f, wf rs f -> compile rs (print f) = Some f.
+Proof. exact compile_print. Qed.
+Print Assumptions C18_compile_print.
+
+(* so what a printed filter evaluates to after parsing is what the tree evaluates to *)
+Theorem C18_eval_parse_print : forall rs f, wf rs f ->
+  forall sc e, option_map (fun g => eval sc g e) (parse rs (print f)) = Some (eval sc f e).
+Proof. exact eval_parse_print. Qed.
+Print Assumptions C18_eval_parse_print.
+
+(* the grammar as coded: the connectives nest to the right whatever they are (there is
+   no precedence between && and ||), the two-character operators win over > < &, and
+   the lone & operator is tried before && and backtracked *)
+Theorem C18_grammar_facts :
+  parse ex_rs txt_and_or = Some (And (leaf0 ["a"]) (Or (leaf0 ["b"]) (leaf0 ["c"]))) /\
+  parse ex_rs txt_or_and = Some (Or (leaf0 ["a"]) (And (leaf0 ["b"]) (leaf0 ["c"]))) /\
+  parse ex_rs txt_ge = Some (Leaf (id_ ["F"; "o"; "o"]) [] (Some (OGe, VLit (PNum (mkNum KI 1 1))))) /\
+  parse ex_rs txt_amp = Some (And (leaf0 ["F"; "o"; "o"]) (leaf0 ["b"; "a"; "r"])).
+Proof. exact ex_grammar_facts. Qed.
+Print Assumptions C18_grammar_facts.
+
+(* outside well-formedness the text does not mean the tree: an enum whose name begins
+   with None has no parse, an enum called Meta is read as a Meta reference, a negative
+   int and a str with a code point above 255 cannot be written as literals *)
+Theorem C18_parse_print_wf_needed :
+  wf_syntax bad_enum_none = false /\ parse ex_rs (print bad_enum_none) = None /\
+  wf_syntax bad_enum_meta = false /\
+  parse ex_rs (print bad_enum_meta) = Some (Leaf (id_ ["a"]) [] (Some (OEq, VMeta [id_ ["X"]]))) /\
+  wf_syntax bad_negative = false /\ parse ex_rs (print bad_negative) <> Some bad_negative /\
+  wf_syntax bad_wide = false /\ parse ex_rs (print bad_wide) <> Some bad_wide.
+Proof. exact ex_wf_needed. Qed.
+Print Assumptions C18_parse_print_wf_needed.
+
 (* ---- the view equals the filtered log -------------------------------- *)
 
 (* For EVERY operation sequence {log, set filter (compilable or not, raising or not),
@@ -169,3 +246,15 @@ Example C18_ex_former_errors :
   eval true w_filter_band w_entry_meta = Ok true [] /\
   eval false w_filter_band w_entry_meta = Ok true [].
 Proof. exact former_errors. Qed.
+
+
+(* a well-formed filter with every node kind (Leaf with and without comparison, Not on a
+   bare selector and on a parenthesised expression, And, Or), every operator, and every
+   kind of expected value (None, True, False, int, float, str with both quotes, a
+   backslash, a newline and Latin-1 characters, bytes, 3- and 4-tuples, Meta, enum);
+   its text is
+   (Foo.Bar*.B-z_2 >= 0.1 && !Foo) || !(Meta.X & 255 && a == <str> || b != <bytes>) && * ~= (1, 2.5, 0)
+   || c < (1, 2, 3, 0.25) || d ^= Meta.Sel || e $= Metadata.TORUS || f <= None || g > True || !(!(h == False)) *)
+Example C18_ex_syntax :
+  wf ex_rs ex_syntax_filter /\ parse ex_rs (print ex_syntax_filter) = Some ex_syntax_filter.
+Proof. exact ex_syntax_ok. Qed.
